@@ -95,6 +95,7 @@ def jobs(tier, seed):
 
 
 META = {
+    "fp_lemma": True,
     "expected_covers": {"general_mirrors": ["written"]},
     "assumptions": C04.META["assumptions"] + [
         "the written text is read by an independent configparser.ConfigParser(interpolation=None, optionxform=str) through the same INI stub",
